@@ -288,6 +288,9 @@ def _refuse():
     bad = []
     ops = [DenseBlockDiagonalOperator(jnp.ones((2, 3)), S(3), 'ij,j->i'), IndexOperator(jnp.array([0, 1]), in_structure=S(3)),
            RavelOperator(in_structure=S(2, 3)), DenseBlockDiagonalOperator(jnp.ones((2, 3)), S(3), 'ij,j->i') @ DenseBlockDiagonalOperator(jnp.ones((3, 3)), S(3), 'ij,j->i')]
+    from furax._base.blocks import BlockDiagonalOperator
+    rect, sq = DenseBlockDiagonalOperator(jnp.ones((2, 3)), S(3), 'ij,j->i'), DenseBlockDiagonalOperator(jnp.eye(3), S(3), 'ij,j->i')
+    ops += [BlockDiagonalOperator([rect, sq]), BlockDiagonalOperator({'a': sq, 'b': rect}), BlockDiagonalOperator([rect])]
     for op in ops:
         for how, f in (('.I', lambda o: o.I), ('InverseOperator', InverseOperator)):
             try:
